@@ -22,7 +22,9 @@ from __future__ import annotations
 import json
 import re
 
-from opsim.core import CLOCK
+from opsim import seams
+from opsim.core import CLOCK, EPOCH, HarnessError, derive
+from opsim.sched import Sched, SimLock
 from opsim.util import call, weighted
 
 from operon_ai.core.types import Signal
@@ -32,7 +34,7 @@ from operon_ai.surveillance.innate import (InnateImmunity, TLRPattern, PAMPCateg
 
 ID = "C10"
 LEVEL = "exploration"
-ENGINE = "seq"
+ENGINE = "seq+threads"
 RUNS = {"quick": 16_000, "thorough": 900_000}
 RULE = ("seeded histories (6-30 operations) over filter()/check() of pool inputs (an instance of each of the 19 "
         "membrane and 17 innate built-in signatures and of 10 generated substring/regex signatures, 5 case "
@@ -44,11 +46,18 @@ RULE = ("seeded histories (6-30 operations) over filter()/check() of pool inputs
         "configurations: thresholds 1..3 (membrane) / 1..6 (innate), rate_limit None/0/1/3, adaptive on/off, "
         "0-2 custom signatures, validators default or any subset of the three shipped ones; "
         "non-trivial = a gate sees the same root input again after a rule change or clock move; "
-        "distinct = distinct (configuration, operation list). Input-string clauses are sampled from this pool only.")
+        "distinct = distinct (configuration, operation list). Input-string clauses are sampled from this pool only. "
+        "Threads family (20 % of runs): 2-3 tasks x 1-4 filter() calls on ONE shared Membrane (rate_limit 1..3 with the "
+        "window pre-filled sequentially to one free slot / full / emptier, benign distinct inputs, clock advances and "
+        "jumps to the 60 s edge -/+0.01 s inside tasks; or a replay workload: one task blocks x, relaxes the threshold "
+        "and asks again while others block other contents) under the seeded scheduler (serial, uniform, sticky, pct, "
+        "lock-biased) with a decision at every source line of membrane.py and every lock operation; non-trivial = "
+        "a task was pre-empted inside filter(); distinct = distinct (workload, recorded context-switch list)")
 COMPONENTS = {"real": ["operon_ai.organelles.membrane.Membrane (x2)", "operon_ai.surveillance.innate.InnateImmunity",
                        "JSONValidator", "LengthValidator", "CharacterSetValidator"],
               "stub": ["membrane.time (virtual clock)", "datetime.now in innate.py (virtual clock)",
-                       "on_threat / on_inflammation callbacks (recorders)"]}
+                       "on_threat / on_inflammation callbacks (recorders)",
+                       "threads family: threading.Lock (SimLock), the OS scheduler (seeded scheduler)"]}
 ASSUMPTIONS = [
     "'for all input strings' is sampled from the generated pool described in the rule; no stronger claim",
     "'matches' = case-insensitive substring (str.lower on both sides) or re.IGNORECASE search, as the anchors state",
@@ -65,11 +74,19 @@ ASSUMPTIONS = [
     "inflammation cool-down (not in the statement text; DESIGN clause): a clean input reports LOW exactly while "
     "now < (reading of the last non-NONE response + decay), judged 1 ms away from the edge",
     "SHA-256 prefix collisions of the replay memory are ignored",
+    "threads family: pre-emption granularity is the source line; a call is admitted at some instant between its "
+    "invocation and its return, so over-admission is reported only for a set of calls whose whole [clock at invoke, "
+    "clock at return] intervals fit in one 60 s window; 'passed the rate check' = allowed or refused with a reported "
+    "signature match; clock moves inside the threads family are forward only",
+    "threads family: the membrane keeps 2 of the 19 built-in signatures (public `signatures` list shortened) so that "
+    "schedules concentrate on the shared state; the unlocked statistics counters are not judged",
 ]
-EXPECT_PROBES = ("replay_blocked_after_relax", "rate_limited", "window_edge_admit", "window_edge_refuse",
+EXPECT_PROBES = ("rejudged_after_tightening", "replay_blocked_after_relax", "rate_limited", "window_edge_admit", "window_edge_refuse",
                  "audit_cleared", "learned_blocked", "imported_blocked", "forgot_then_allowed", "case_pair_blocked",
                  "embed_pair_blocked", "long_input", "deep_json", "ctrl_input", "surrogate_input", "cooldown_low",
-                 "cooldown_ended", "innate_structural_block", "clock_backward", "threshold_relaxed", "learn_refused_non_adaptive")
+                 "cooldown_ended", "innate_structural_block", "clock_backward", "threshold_relaxed", "learn_refused_non_adaptive",
+                 "threads_run", "threads_preempted_in_filter", "threads_one_slot_left", "threads_rate_refused",
+                 "threads_edge_crossed", "threads_replay_blocked", "preempted_while_holding_a_lock", "lock_blocked")
 
 WINDOW = 60.0
 EDGE = 1e-3
@@ -261,7 +278,7 @@ def _variant(rng):
     return ["embed", [rng.randrange(1, len(BENIGN)), rng.randrange(0, len(BENIGN))]]
 
 
-def gen(rng, tier, i):
+def _gen_seq(rng, tier):
     def sigspec():
         return [rng.randrange(len(CUSTOM)), rng.choice([1, 2, 2, 3])]
     ms = []
@@ -285,7 +302,7 @@ def gen(rng, tier, i):
     ops = []
     nseg = rng.randint(2, 5 if tier == "quick" else 9)
     table = [(3, "replay"), (2.5, "rate"), (3, "pairs"), (2.5, "xfer"), (3, "hostile"), (2.5, "inflame"),
-             (1.5, "thr"), (1, "audit"), (1, "clock"), (1.5, "innate_rules"), (1.5, "mix")]
+             (1.5, "thr"), (1, "audit"), (1, "clock"), (1.5, "innate_rules"), (1.5, "mix"), (2.5, "tighten")]
     for _ in range(nseg):
         seg = weighted(rng, table)
         j = rng.randrange(2)
@@ -333,6 +350,23 @@ def gen(rng, tier, i):
             if rng.random() < 0.6:
                 ops += [["forget", rng.choice([j, 1 - j]), c], ["f", 1 - j, [x[0], x[1], rng.randrange(5), 1, 0]],
                         ["f", 1 - j, x]]
+        elif seg == "tighten":
+            # judged clean first, then the rule set grows by each of the four routes, then the identical input again
+            c = rng.randrange(len(CUSTOM))
+            x = _inst(rng, ("cu",), cu=c)
+            lvl = rng.choice([2, 3, 3])
+            how = rng.choice(["import", "import", "learn", "addsig", "thr"])
+            if how == "import":
+                ops += [["learn", 1 - j, c, lvl], ["f", j, x], ["xfer", 1 - j, j], ["f", j, x]]
+            elif how == "learn":
+                ops += [["f", j, x], ["learn", j, c, lvl], ["f", j, x]]
+            elif how == "addsig":
+                ops += [["f", j, x], ["addsig", j, c, lvl], ["f", j, x]]
+            else:
+                y = _inst(rng, ("mi",))
+                ops += [["thr", j, 3], ["f", j, y], ["thr", j, rng.choice([1, 2])], ["f", j, y]]
+            if rng.random() < 0.3:
+                ops.append(["f", j, [x[0], x[1], rng.randrange(5), 1, 0]])
         elif seg == "hostile":
             for _ in range(rng.randint(1, 3)):
                 x = _hostile(rng)
@@ -376,7 +410,7 @@ def gen(rng, tier, i):
     return {"config": cfg, "ops": ops}
 
 
-def simplify(plan):
+def _simplify_seq(plan):
     cfg = plan["config"]
     for j in range(2):
         m = cfg["m"][j]
@@ -424,6 +458,7 @@ class MembraneModel:
         self.admitted = []         # clock readings of allowed inputs since the last backward jump
         self.roots = {}
         self.forgotten = []
+        self.allowed_before = set()
 
     def active(self):
         return self.fixed + [(p, l, rx, o) for p, (l, rx, o) in self.learned.items()]
@@ -456,7 +491,7 @@ def _changed(roots):
 
 
 # ----------------------------------------------------------------------------- run
-def run(plan, k):
+def _run_seq(plan, k):
     cfg = plan["config"]
     threats = []
     mem, mm = [], []
@@ -522,6 +557,7 @@ def run(plan, k):
                 if any(abs(r - (now - WINDOW)) <= 0.05 for r in model.admitted):
                     k.probe("window_edge_admit")
             model.admitted.append(now)
+            model.allowed_before.add(x)
             if any(ref_match(p, rx, x) for p, rx in model.forgotten):
                 k.probe("forgot_then_allowed")
         # --- reported level = max over matched signatures
@@ -541,6 +577,8 @@ def run(plan, k):
                     k.probe("window_edge_refuse")
             if was_blocked and not blocking:
                 k.probe("replay_blocked_after_relax")
+            if got and x in model.allowed_before:
+                k.probe("rejudged_after_tightening")
             if any(h[3] == "learned" and h[1] >= model.threshold for h in hits) and got:
                 k.probe("learned_blocked")
             if any(h[3] == "imported" and h[1] >= model.threshold for h in hits) and got:
@@ -742,3 +780,229 @@ def _note_input(k, d, x):
         k.probe("surrogate_input")
     elif kind == "js" and d[1] in ("nest", "obj") and d[2] >= 600:
         k.probe("deep_json")
+
+
+# =========================================================================== threads family
+# Several tasks call filter() on ONE shared rate-limited Membrane under the seeded line-granularity
+# scheduler (decision at every source line of membrane.py and at every lock operation).  Judged at
+# quiescence over the whole recorded history, so the verdict holds for every interleaving of a
+# correctly locked limiter:
+#   rate          no set of more than rate_limit calls that passed the rate check can be placed, by the clock
+#                 readings each call could have made ([clock at invoke, clock at return]), inside one 60 s window
+#   audit         one audit entry per decision
+#   replay_memory a content refused on the scan path by a call that had returned is refused by every later call
+#   total         no call raises; no deadlock
+# Unlocked statistics counters (_total_filtered/_total_blocked) are deliberately not judged.
+STRATEGIES = [(1, {"kind": "serial"}), (2, {"kind": "uniform"}), (2, {"kind": "sticky", "p": 0.7}),
+              (3, {"kind": "sticky", "p": 0.9}), (2, {"kind": "pct", "d": 1, "est": 120}),
+              (2, {"kind": "pct", "d": 2, "est": 160}), (2, {"kind": "pct", "d": 3, "est": 200}),
+              (4, {"kind": "lock_biased", "k": 4})]
+SRC = None
+KEEP_BUILTINS = 2     # the threads family keeps a short signature list so that schedules concentrate on shared state
+
+
+def _gen_threads(rng, tier):
+    replay = rng.random() < 0.3
+    rate = rng.choice([None, 3]) if replay else rng.choice([1, 1, 2, 2, 3])
+    cfg = {"rate": rate, "threshold": 2, "custom": [], "strategy": dict(weighted(rng, STRATEGIES))}
+    uid = [0]
+
+    def benign():
+        uid[0] += 1
+        return ["f", ["u", uid[0]]]
+    pre = []
+    if rate:
+        fill = weighted(rng, [(6, rate - 1), (2, rate), (1, max(0, rate - 2)), (1, 0)])
+        for q in range(fill):
+            pre.append(benign())
+            if rng.random() < 0.5:
+                pre.append(["clock", rng.choice([0.5, 5.0, 20.0])])
+    ntasks = rng.choice([2, 2, 2, 3])
+    tasks = []
+    if replay:
+        c = rng.randrange(len(CUSTOM) - 1)          # not the one-letter pattern
+        cfg["custom"] = [[c, 2]]
+        x = ["cu", c, 0, rng.randrange(len(BENIGN)), 0]
+        y = ["mi", rng.randrange(KEEP_BUILTINS), 0, 0, 0]       # always refused on the scan path
+        # one task blocks x, relaxes the threshold and asks again; the others block other contents meanwhile
+        tasks.append([["f", x], ["thr", 3], ["f", x]] if rng.random() < 0.7 else [["f", x], ["f", y], ["thr", 3], ["f", x]])
+        for t in range(1, ntasks):
+            ops = [["f", y]] if rng.random() < 0.8 else [benign()]
+            for _ in range(rng.randint(0, 2)):
+                o = weighted(rng, [(3, "x"), (1.5, "thr"), (1, "b"), (2, "y")])
+                ops.append(["f", x] if o == "x" else ["thr", rng.choice([3, 3, 2])] if o == "thr"
+                           else ["f", y] if o == "y" else benign())
+            tasks.append(ops)
+        if rng.random() < 0.25:
+            pre.append(["f", x])
+    else:
+        for t in range(ntasks):
+            ops = []
+            for _ in range(rng.randint(1, 3 if tier == "quick" else 4)):
+                r = rng.random()
+                if r < 0.15:
+                    ops.append(["clock", rng.choice([0.5, 5.0, 30.0, 61.0])])
+                elif r < 0.3:
+                    ops.append(["edge", rng.choice([-0.01, 0.01, 1.0])])
+                ops.append(benign())
+            tasks.append(ops)
+    return {"family": "threads", "config": cfg, "pre": pre, "tasks": tasks}
+
+
+def gen(rng, tier, i):
+    if rng.random() < 0.2:
+        return _gen_threads(rng, tier)
+    return _gen_seq(rng, tier)
+
+
+def simplify(plan):
+    if plan.get("family") == "threads":
+        return iter(())
+    return _simplify_seq(plan)
+
+
+def run(plan, k):
+    if plan.get("family") == "threads":
+        return _run_threads(plan, k)
+    return _run_seq(plan, k)
+
+
+def _build_t(d):
+    if d[0] == "u":
+        return f"note {d[1]}: " + BENIGN[1 + d[1] % (len(BENIGN) - 1)]
+    return build(d)
+
+
+def _run_threads(plan, k):
+    global SRC
+    if SRC is None:
+        SRC = [seams.src("operon_ai/organelles/membrane.py")]
+    cfg = plan["config"]
+    rate = cfg["rate"]
+    sched = Sched(k, cfg.get("strategy"), switches=plan.get("switches"),
+                  rng=derive(plan.get("_seedpath", "replay"), "sched"), scope=SRC, max_steps=40_000)
+    m = Membrane(signatures=[ThreatSignature(CUSTOM[i][0], ML(l), f"custom {i}", CUSTOM[i][1]) for i, l in cfg["custom"]] or None,
+                 threshold=ML(cfg["threshold"]), rate_limit=rate, silent=True)
+    nb = len(Membrane.INNATE_SIGNATURES)
+    m.signatures[:] = m.signatures[:KEEP_BUILTINS] + m.signatures[nb:]
+    for name, v in vars(m).items():
+        if type(v).__module__ in ("_thread", "threading"):
+            raise HarnessError(f"Membrane.{name} is a real {type(v).__name__}: the threading seam moved")
+    if seams.find_locks(m):
+        k.probe("subject_lock_is_sim")
+    k.probe("threads_run")
+    hist = []      # one dict per filter() call: content, inv/ret stamps, clock interval, outcome
+    p0 = [None]
+
+    def do_filter(who, d):
+        x = _build_t(d)
+        lo = CLOCK.now
+        inv = k.ev("inv", [who, d])
+        out = call(m.filter, Signal(content=x))
+        hi = CLOCK.now
+        if out.kind == "raised":
+            k.ev("ret", [who, out.brief()])
+            k.violation("total", f"raised:{type(out.exc).__name__}", "membrane:concurrent", repr(out.exc)[:160])
+            hist.append({"x": x, "inv": inv, "ret": None, "lo": lo, "hi": hi, "res": None})
+            return
+        if out.kind != "ok":
+            raise HarnessError(f"unexpected outcome {out.kind} of filter() inside a scheduled task")
+        res = out.value
+        ret = k.ev("ret", [who, bool(res.allowed), res.threat_level.name, len(res.matched_signatures)])
+        hist.append({"x": x, "inv": inv, "ret": ret, "lo": lo, "hi": hi, "res": res,
+                     "passed": bool(res.allowed or res.matched_signatures)})
+
+    def do_op(who, op):
+        if op[0] == "f":
+            do_filter(who, op[1])
+        elif op[0] == "clock":
+            CLOCK.advance(op[1])
+            k.fault("clock_forward")
+            k.ev("clock", [who, op[1]])
+        elif op[0] == "edge":
+            if p0[0] is not None and CLOCK.now < p0[0] + WINDOW + op[1]:
+                CLOCK.advance(p0[0] + WINDOW + op[1] - CLOCK.now)
+                k.fault("clock_boundary")
+                k.probe("threads_edge_crossed")
+            k.ev("edge", [who, op[1]])
+        elif op[0] == "thr":
+            m.set_threshold(ML(op[1]))
+            k.ev("thr", [who, op[1]])
+        else:
+            raise ValueError(op)
+
+    # sequential pre-fill (scheduler not started): leaves the window nearly full
+    for op in plan.get("pre") or []:
+        do_op("pre", op)
+    admitted0 = [h for h in hist if h.get("passed")]
+    if admitted0:
+        p0[0] = min(h["lo"] for h in admitted0)
+    if rate and len(admitted0) == rate - 1:
+        k.probe("threads_one_slot_left")
+
+    def body(ti, ops):
+        def f():
+            me = sched.cur
+            for op in ops:
+                me.op = op[0] if op[0] == "f" else None
+                do_op(ti, op)
+                me.op = None
+        return f
+
+    for ti, ops in enumerate(plan["tasks"]):
+        sched.spawn(body(ti, ops), name=f"t{ti}")
+    sched.run()
+    plan["switches"] = sched.switches
+    k.steps += sched.steps
+    k.key = ["threads", cfg, plan.get("pre"), plan["tasks"]]
+    k.nontrivial = sched.preempt_in_op > 0
+    if sched.preempt_in_op:
+        k.probe("threads_preempted_in_filter")
+    if sched.lock_contention:
+        k.probe("lock_blocked", sched.lock_contention)
+    for t in sched.tasks:
+        if t.exc is not None:
+            if isinstance(t.exc, HarnessError):
+                raise t.exc
+            raise HarnessError(f"task {t.name} died: {t.exc!r}")
+    v = sched.verdict
+    if v and v[0] == "deadlock":
+        k.violation("total", "deadlock", "membrane:concurrent", " | ".join(v[1]))
+        return
+    if v and v[0] == "step_budget":
+        raise HarnessError("threads family exceeded its step budget")
+
+    done = [h for h in hist if h["res"] is not None]
+    k.ev("final", [len(hist), sum(1 for h in done if h["res"].allowed)])
+    # ---- rate: no provable over-admission in any 60 s window
+    if rate is not None:
+        adm = [h for h in done if h["passed"]]
+        if any(not h["passed"] and not h["res"].matched_signatures for h in done):
+            k.probe("threads_rate_refused")
+        for a in adm:
+            w = a["lo"]
+            inside = [b for b in adm if b["lo"] >= w and b["hi"] < w + WINDOW - EDGE]
+            if len(inside) > rate:
+                k.violation("rate", "window_exceeded", "membrane:concurrent",
+                            f"{len(inside)} inputs passed the rate check with every possible reading inside "
+                            f"[t0+{round(w - EPOCH, 3)} s, +60 s), rate_limit={rate}")
+                break
+    # ---- audit: one entry per decision
+    if len(done) == len(hist):
+        log = m.get_audit_log()
+        if len(log) != len(done):
+            k.violation("audit", "count_mismatch_at_quiescence", "membrane:concurrent", f"{len(log)} entries for {len(done)} decisions")
+        elif sorted(e.allowed for e in log) != sorted(h["res"].allowed for h in done):
+            k.violation("audit", "entries_differ_from_decisions", "membrane:concurrent")
+    # ---- replay memory across threads
+    for q in done:
+        if q["res"].allowed:
+            for p in done:
+                if (p["x"] == q["x"] and p["ret"] is not None and p["ret"] < q["inv"] and not p["res"].allowed
+                        and p["res"].matched_signatures):
+                    k.violation("replay_memory", "allowed_after_block", "membrane:concurrent",
+                                "a call that returned a scan-path refusal of this content preceded the call that allowed it")
+                    break
+        elif any(p["x"] == q["x"] and p["ret"] is not None and p["ret"] < q["inv"] and not p["res"].allowed
+                 and p["res"].matched_signatures and p is not q for p in done):
+            k.probe("threads_replay_blocked")
